@@ -61,6 +61,10 @@ func (g *Gen) rootArg(k int) d128.Decimal {
 
 func genC17(g *Gen) {
 	g.setMode(0)
+	g.encodingGrid(0.25, func(x d128.Decimal) {
+		g.un("Sqrt", x)
+		g.un("Cbrt", x)
+	})
 	for !g.w.full() {
 		switch g.r.Intn(12) {
 		case 0:
